@@ -17,7 +17,11 @@ Model of the two extractors on a Unix host:
 * `ZipStreamReader::extract` (src/read/stream.rs): `visit_file` for every local entry — the same
   without the `exists` test and without modes (a streamed entry has no external attributes) — and then
   `visit_additional_metadata` for every central record: `enclosed_name()` or the same error, and the
-  same `push` when `unix_mode()` is `Some`; after the visit `apply_unix_modes`.
+  same `push` when `unix_mode()` is `Some`; after the visit `apply_unix_modes` — also when the visit
+  FAILS (`let visited = self.visit(&mut extractor); let applied = apply_unix_modes(extractor.1);
+  visited?; applied?`): the modes of the central records seen before the failure are applied, best
+  effort, and the error of the visit is returned.  A failure while the files are placed precedes every
+  central record: no mode is known then.
   (Before the repair `fix: extract applies the recorded Unix modes after all entries are written,
   deeper paths first` the seekable extractor applied each mode right after its entry and the streaming
   one applied them in central-directory order: a read-only directory / a read-only first duplicate /
@@ -143,10 +147,20 @@ def checkMetas : List (Name × Option Nat) → Option Err
     | none => some .invalidPath
     | some _ => checkMetas ms
 
+/-- How many central records `visit_additional_metadata` accepts (mode recorded) before the first it
+rejects; all of them when none is rejected. -/
+def checkedCount : List (Name × Option Nat) → Nat
+  | [] => 0
+  | m :: ms =>
+    match enclosedName m.1 with
+    | none => 0
+    | some _ => checkedCount ms + 1
+
 /-- `ZipStreamReader::extract(directory)`: all local entries, then all central records; the reader
 insists on at least one central record after the local entries (an archive without entries starts
 with the end-of-central-directory signature, which `read_zipfile_from_stream` rejects); when the
-visit has succeeded, `apply_unix_modes` as above. -/
+visit has succeeded, `apply_unix_modes` as above; when a central record is rejected, the same for the
+modes of the records before it, the outcome of that ignored, and the error of the visit. -/
 def extractStream (c : Cfg) (root : Path) (files : List EntryView) (metas : List (Name × Option Nat))
     (fs : FS) : FS × Option Err :=
   match placeFiles c false root files fs with
@@ -156,7 +170,7 @@ def extractStream (c : Cfg) (root : Path) (files : List EntryView) (metas : List
     | [] => (fs1, some .noCentral)
     | _ =>
       match checkMetas metas with
-      | some er => (fs1, some er)
+      | some er => ((applyModes c root (modeOrder (metas.take (checkedCount metas))) fs1).1, some er)
       | none => applyModes c root (modeOrder metas) fs1
 
 end ZipVerif.Model.Extract
